@@ -7,7 +7,7 @@ shutil.copy("/repo/Cargo.lock", os.path.join(ROOT, "harness", "Cargo.lock"))
 g = os.path.join(ROOT, "tools", "gen_constants.py")
 if os.path.exists(g):
     subprocess.check_call([sys.executable, g], cwd=ROOT)
-for g2 in ("gen_functions.py", "gen_steps.py"):
+for g2 in ("gen_functions.py", "gen_steps.py", "gen_layouts.py"):
     g2 = os.path.join(ROOT, "tools", g2)
     if os.path.exists(g2):
         subprocess.check_call([sys.executable, g2], cwd=ROOT)
